@@ -25,7 +25,11 @@ fn recurse_single_stub<C: ChanceRecurse>(
     p_player: [f64; 2],
 ) -> f64 {
     unsafe {
-        if node as *const Node as usize != ROOT || p_chance != 1.0 || p_player[0] != 1.0 || p_player[1] != 1.0 {
+        if node as *const Node as usize != ROOT
+            || p_chance != 1.0
+            || p_player[0] != 1.0
+            || p_player[1] != 1.0
+        {
             BAD_TRAVERSAL_ARGS = true;
         }
         // the traversal of iteration t must come before any update of iteration t and after all
@@ -71,7 +75,7 @@ fn run(budget_max: u64) {
     let n: u64 = kani::any();
     kani::assume(n <= budget_max);
     let r: f64 = kani::any(); // every bit pattern: NaN, +-0, +-inf, negative
-    // quarter grid: sums over a player's infosets are exact in any order
+                              // quarter grid: sums over a player's infosets are exact in any order
     macro_rules! set {
         ($t:expr, $id:expr) => {
             let k: u8 = kani::any();
@@ -95,7 +99,10 @@ fn run(budget_max: u64) {
     set!(3, 2);
     let chance: Box<[FullChance<'static>]> = Box::new([]);
     let players: [Box<[RefCell<RegretInfoset>]>; 2] = [
-        Box::new([RefCell::new(RegretInfoset::new(2)), RefCell::new(RegretInfoset::new(3))]),
+        Box::new([
+            RefCell::new(RegretInfoset::new(2)),
+            RefCell::new(RegretInfoset::new(3)),
+        ]),
         Box::new([RefCell::new(RegretInfoset::new(4))]),
     ];
     let params = RegretParams::vanilla();
@@ -113,30 +120,57 @@ fn run(budget_max: u64) {
     }
     kani::cover!(n == 3 && tstar == 2, "stopped early at iteration 2 of 3");
     kani::cover!(n == 3 && tstar == 1, "stopped after the first iteration");
-    kani::cover!(n == 3 && tstar == 3 && r > 0.0 && !(fmax(bound_of(3)[0], bound_of(3)[1]) < r), "positive threshold never reached");
+    kani::cover!(
+        n == 3 && tstar == 3 && r > 0.0 && !(fmax(bound_of(3)[0], bound_of(3)[1]) < r),
+        "positive threshold never reached"
+    );
     kani::cover!(n == 0, "zero budget");
     kani::cover!(r.is_nan() && n == 2, "NaN threshold");
-    kani::cover!(n == 2 && r == bound_of(1)[0] && bound_of(1)[1] < r, "bound exactly at the threshold");
+    kani::cover!(
+        n == 2 && r == bound_of(1)[0] && bound_of(1)[1] < r,
+        "bound exactly at the threshold"
+    );
     unsafe {
         assert!(TRAVERSALS == tstar, "C09 stop: number of iterations run != first iteration below the threshold (or the budget)");
         assert!(TRAVERSALS <= n, "C09 stop: budget exceeded");
-        assert!(!BAD_TRAVERSAL_ARGS, "C08 driver: root traversal not started at the root with unit reach");
+        assert!(
+            !BAD_TRAVERSAL_ARGS,
+            "C08 driver: root traversal not started at the root with unit reach"
+        );
         assert!(ORDER_OK, "C08 driver: per-iteration order is not traversal, then update(t) of every infoset once");
-        assert!(ADVANCES[0] == tstar && ADVANCES[1] == tstar && ADVANCES[2] == tstar, "C08 driver: some infoset not updated exactly once per iteration");
+        assert!(
+            ADVANCES[0] == tstar && ADVANCES[1] == tstar && ADVANCES[2] == tstar,
+            "C08 driver: some infoset not updated exactly once per iteration"
+        );
     }
     if tstar == 0 {
-        assert!(regs[0] == f64::INFINITY && regs[1] == f64::INFINITY, "C05 bounds: zero budget must return infinite bounds");
+        assert!(
+            regs[0] == f64::INFINITY && regs[1] == f64::INFINITY,
+            "C05 bounds: zero budget must return infinite bounds"
+        );
     } else {
         let b = bound_of(tstar as usize);
         assert!(regs[0] == b[0] && regs[1] == b[1], "C09 bound: returned bounds are not those of the last iteration run (sum over the player's infosets)");
-        assert!(regs[0] >= 0.0 && regs[1] >= 0.0 && regs[0] < f64::INFINITY && regs[1] < f64::INFINITY, "C05 bounds: bound negative or infinite after an iteration ran");
+        assert!(
+            regs[0] >= 0.0 && regs[1] >= 0.0 && regs[0] < f64::INFINITY && regs[1] < f64::INFINITY,
+            "C05 bounds: bound negative or infinite after an iteration ran"
+        );
         if tstar < n {
-            assert!(fmax(regs[0], regs[1]) < r, "C09 stop: stopped early although the bound is not below the threshold");
+            assert!(
+                fmax(regs[0], regs[1]) < r,
+                "C09 stop: stopped early although the bound is not below the threshold"
+            );
         }
     }
     // nothing accumulated by the stubs: every infoset must come back uniform (well formed), in table order
-    assert!(strats[0].len() == 5 && strats[1].len() == 4, "C05 profile: returned strategy has the wrong layout");
-    assert!(strats[0][0] == 0.5 && strats[0][1] == 0.5 && strats[1][3] == 0.25, "C05 profile: untouched infoset is not uniform");
+    assert!(
+        strats[0].len() == 5 && strats[1].len() == 4,
+        "C05 profile: returned strategy has the wrong layout"
+    );
+    assert!(
+        strats[0][0] == 0.5 && strats[0][1] == 0.5 && strats[1][3] == 0.25,
+        "C05 profile: untouched infoset is not uniform"
+    );
     core::mem::forget(strats);
 }
 
